@@ -92,6 +92,7 @@ type Config struct {
 	KeepLog        int // number of trailing log lines kept
 	FullLog        bool
 	Paranoid       bool // verify goroutine identity on every Step (slow)
+	StepHook       func() // called on every Step of every task (measurement in reference runs)
 }
 
 func DefaultConfig() Config {
@@ -557,6 +558,9 @@ func Step() {
 	}
 	t.steps++
 	s.steps++
+	if s.cfg.StepHook != nil {
+		s.cfg.StepHook()
+	}
 	if t.steps > t.stepLimit {
 		s.trap(t)
 		return
